@@ -295,6 +295,7 @@ func (pw *partWrapper) decRef() {
 	if n > 0 {
 		return
 	}
+	verifPartReleased(pw)
 	if pw.mp != nil {
 		releaseMemPart(pw.mp)
 		pw.mp = nil
@@ -304,6 +305,7 @@ func (pw *partWrapper) decRef() {
 	pw.p.close()
 	if pw.removable.Load() && pw.p.fileSystem != nil {
 		go func(pw *partWrapper) {
+			verifPartRemoving(pw)
 			pw.p.fileSystem.MustRMAll(pw.p.path)
 		}(pw)
 	}
